@@ -68,6 +68,144 @@ fn member_type(m: &Model, ctx: &mut Ctx) {
     }
 }
 
+/// C02.box: "recursive components are boxed" starts in the linker: `ASN1Type::mark_recursive` (with `recurses`) flags the
+/// component that closes a reference cycle, the generators box exactly the flagged components. Both are evaluated on small
+/// definition tables in the order Validator::link visits them (every definition taken out of the table while it is marked):
+/// afterwards every cycle of type references that runs through SEQUENCE / SET components or CHOICE alternatives only must
+/// contain a flagged component (otherwise the Rust types have infinite size), and a table without a cycle has none.
+pub fn recursion_marking(m: &Model, ctx: &mut Ctx, rule: &str) {
+    let Some(f) = anchor_fn(m, ctx, rule, Some("ASN1Type"), "mark_recursive", None) else { return };
+    let consts = const_resolver(m);
+    let mut inl = inline_all(m, &["ASN1Type"]);
+    inl.retain(|k, _| k == ".recurses" || k == ".mark_recursive" || k == ".as_str");
+    let inl2 = inl.clone();
+    // `tld.recurses(..)` on a definition of the table is the recursion of its type (ToplevelDefinition::recurses delegates)
+    let hook = move |ev: &Evaluator, name: &str, a: &[Val]| -> Option<Result<Val, String>> {
+        if name == ".recurses" {
+            if let Some(Val::Ctor(k, p, _)) = a.first() {
+                if k == "Type" {
+                    let ty = match p.first() { Some(Val::Ctor(_, _, f)) => f.get("ty").cloned(), _ => None };
+                    let (Some(ty), Some((params, body))) = (ty, inl2.get(".recurses")) else { return Some(Err("definition without a type".into())) };
+                    let mut e2 = Env::new();
+                    e2.insert("self".into(), ty);
+                    for (pn, v) in params.iter().zip(a.iter().skip(1)) {
+                        e2.insert(pn.clone(), v.clone());
+                    }
+                    return Some(ev.eval_fn_body(body, &mut e2));
+                }
+            }
+        }
+        None
+    };
+    let ev = Evaluator { consts: &consts, call_hook: &hook, inline: Some(&inl) };
+    let named = |n: &str, fields: Vec<(&str, Val)>| Val::Ctor(n.to_string(), vec![], fields.into_iter().map(|(k, v)| (k.to_string(), v)).collect::<BTreeMap<_, _>>());
+    let reference = |to: &str| Val::Ctor("ElsewhereDeclaredType".into(), vec![named("DeclarationElsewhere", vec![("identifier", Val::Str(to.into())), ("module", Val::none()), ("parent", Val::none()), ("constraints", Val::List(vec![]))])], BTreeMap::new());
+    let integer = || Val::Ctor("Integer".into(), vec![named("Integer", vec![("constraints", Val::List(vec![])), ("distinguished_values", Val::none())])], BTreeMap::new());
+    let member = |n: &str, ty: Val| named("SequenceOrSetMember", vec![("name", Val::Str(n.into())), ("ty", ty), ("is_recursive", Val::Bool(false)), ("optionality", Val::ctor("Optional")), ("tag", Val::none()), ("constraints", Val::List(vec![]))]);
+    let option = |n: &str, ty: Val| named("ChoiceOption", vec![("name", Val::Str(n.into())), ("ty", ty), ("is_recursive", Val::Bool(false)), ("tag", Val::none()), ("constraints", Val::List(vec![]))]);
+    let seq = |kind: &str, ms: Vec<Val>| Val::Ctor(kind.into(), vec![named("SequenceOrSet", vec![("members", Val::List(ms)), ("extensible", Val::none()), ("constraints", Val::List(vec![])), ("components_of", Val::List(vec![]))])], BTreeMap::new());
+    let choice = |os: Vec<Val>| Val::Ctor("Choice".into(), vec![named("Choice", vec![("options", Val::List(os)), ("extensible", Val::none()), ("constraints", Val::List(vec![]))])], BTreeMap::new());
+    let list_of = |ty: Val| Val::Ctor("SequenceOf".into(), vec![named("SequenceOrSetOf", vec![("element_type", ty), ("element_tag", Val::none()), ("constraints", Val::List(vec![])), ("is_recursive", Val::Bool(false))])], BTreeMap::new());
+    // (label, definitions, must contain a flagged component?)
+    let scenarios: Vec<(&str, Vec<(&str, Val)>, bool)> = vec![
+        ("self-reference", vec![("List", seq("Sequence", vec![member("value", integer()), member("next", reference("List"))]))], true),
+        ("two-sequences", vec![("Department", seq("Sequence", vec![member("head", reference("Employee"))])), ("Employee", seq("Sequence", vec![member("department", reference("Department"))]))], true),
+        ("sequence-and-set", vec![("Aa", seq("Set", vec![member("b", reference("Bb"))])), ("Bb", seq("Sequence", vec![member("a", reference("Aa"))]))], true),
+        ("three-sequences", vec![("Aa", seq("Sequence", vec![member("b", reference("Bb"))])), ("Bb", seq("Sequence", vec![member("c", reference("Cc"))])), ("Cc", seq("Sequence", vec![member("a", reference("Aa"))]))], true),
+        ("choice-and-sequence", vec![("Expr", choice(vec![option("lit", integer()), option("neg", reference("Negation"))])), ("Negation", seq("Sequence", vec![member("operand", reference("Expr"))]))], true),
+        ("two-choices", vec![("Xx", choice(vec![option("y", reference("Yy")), option("n", integer())])), ("Yy", choice(vec![option("x", reference("Xx")), option("m", integer())]))], true),
+        ("inline-sequence", vec![("Tree", choice(vec![option("leaf", integer()), option("node", seq("Sequence", vec![member("left", reference("Tree")), member("right", reference("Tree"))]))]))], true),
+        ("through-a-list", vec![("Node", seq("Sequence", vec![member("children", list_of(reference("Node")))]))], false),
+        ("no-cycle", vec![("Aa", seq("Sequence", vec![member("b", reference("Bb")), member("c", reference("Bb"))])), ("Bb", seq("Sequence", vec![member("x", integer())]))], false),
+        ("diamond", vec![("Aa", seq("Sequence", vec![member("b", reference("Bb")), member("c", reference("Cc"))])), ("Bb", seq("Sequence", vec![member("d", reference("Dd"))])), ("Cc", seq("Sequence", vec![member("d", reference("Dd"))])), ("Dd", seq("Sequence", vec![member("x", integer())]))], false),
+    ];
+    let params: Vec<String> = f.sig.inputs.iter().filter_map(|a| match a { syn::FnArg::Typed(t) => Some(tok(&t.pat)), _ => None }).collect();
+    for (label, defs, cyclic) in scenarios {
+        ctx.oblige(rule, &format!("mark:{}", label), true);
+        let tld_of = |n: &str, ty: &Val| Val::Ctor("Type".into(), vec![named("ToplevelTypeDefinition", vec![("name", Val::Str(n.into())), ("ty", ty.clone()), ("parameterization", Val::none()), ("tag", Val::none()), ("comments", Val::Str(String::new())), ("module_header", Val::none())])], BTreeMap::new());
+        let mut table: BTreeMap<String, Val> = defs.iter().map(|(n, t)| (n.to_string(), t.clone())).collect();
+        // Validator::link visits the type assignments in descending name order (keys popped from the end of the sorted list)
+        let order: Vec<String> = table.keys().rev().cloned().collect();
+        let mut failed = None;
+        for key in &order {
+            let mut tlds = crate::eval::new_map();
+            for (n, t) in &table {
+                if n != key {
+                    tlds = crate::eval::map_insert(tlds, Val::Str(n.clone()), tld_of(n, t));
+                }
+            }
+            let mut env = Env::new();
+            env.insert("self".into(), table[key].clone());
+            env.insert(params.first().cloned().unwrap_or("name".into()), Val::Str(key.clone()));
+            env.insert(params.get(1).cloned().unwrap_or("tlds".into()), tlds);
+            match ev.eval_fn_body(&f.block, &mut env) {
+                Ok(Val::Ctor(ok, _, _)) if ok == "Ok" => match env.get("self") {
+                    Some(v) => { table.insert(key.clone(), v.clone()); }
+                    None => { failed = Some("self lost".to_string()); break; }
+                },
+                Ok(o) => { failed = Some(format!("mark_recursive({}) = {}", key, o.show().chars().take(80).collect::<String>())); break; }
+                Err(e) => { failed = Some(format!("mark_recursive({}): {}", key, e)); break; }
+            }
+        }
+        if let Some(e) = failed {
+            ctx.fail_closed(rule, &format!("[{}]: {}", label, e));
+            continue;
+        }
+        // the unboxed reference edges that remain
+        fn edges(ty: &Val, out: &mut Vec<String>, flagged: &mut usize) {
+            if let Val::Ctor(kind, p, _) = ty {
+                match (kind.as_str(), p.first()) {
+                    ("ElsewhereDeclaredType", Some(Val::Ctor(_, _, f))) => if let Some(Val::Str(id)) = f.get("identifier") { out.push(id.clone()) },
+                    ("Sequence", Some(Val::Ctor(_, _, f))) | ("Set", Some(Val::Ctor(_, _, f))) | ("Choice", Some(Val::Ctor(_, _, f))) => {
+                        if let Some(Val::List(ms)) = f.get("members").or(f.get("options")) {
+                            for mm in ms {
+                                if let Val::Ctor(_, _, mf) = mm {
+                                    if matches!(mf.get("is_recursive"), Some(Val::Bool(true))) {
+                                        *flagged += 1;
+                                    } else if let Some(t) = mf.get("ty") {
+                                        edges(t, out, flagged);
+                                    }
+                                }
+                            }
+                        }
+                    }
+                    _ => {}
+                }
+            }
+        }
+        let mut graph: BTreeMap<String, Vec<String>> = BTreeMap::new();
+        let mut flagged = 0;
+        for (n, t) in &table {
+            let mut out = vec![];
+            edges(t, &mut out, &mut flagged);
+            graph.insert(n.clone(), out);
+        }
+        fn on_cycle(start: &str, at: &str, graph: &BTreeMap<String, Vec<String>>, seen: &mut Vec<String>) -> bool {
+            for next in graph.get(at).into_iter().flatten() {
+                if next == start {
+                    return true;
+                }
+                if !seen.contains(next) {
+                    seen.push(next.clone());
+                    if on_cycle(start, next, graph, seen) {
+                        return true;
+                    }
+                }
+            }
+            false
+        }
+        let open_cycle: Vec<String> = graph.keys().filter(|k| on_cycle(k, k, &graph, &mut vec![])).cloned().collect();
+        if !open_cycle.is_empty() {
+            ctx.violate(rule, &format!("unboxed-cycle:{}", label), &f.file, f.line,
+                &format!("after mark_recursive has visited every definition of {{{}}}, the type references {} still form a cycle on which no component is flagged recursive: none of them is boxed and the generated structs / enums have infinite size (E0072)",
+                    defs.iter().map(|(n, _)| *n).collect::<Vec<_>>().join(", "), open_cycle.join(" -> ")));
+        } else if !cyclic && flagged > 0 {
+            ctx.violate(rule, &format!("boxed-without-cycle:{}", label), &f.file, f.line,
+                &format!("the definitions {{{}}} contain no reference cycle through SEQUENCE / SET / CHOICE components, yet {} component(s) are flagged recursive and will be boxed: the component's Rust type no longer corresponds to its ASN.1 type", defs.iter().map(|(n, _)| *n).collect::<Vec<_>>().join(", "), flagged));
+        }
+    }
+}
+
 pub fn run(m: &Model, ctx: &mut Ctx) {
     ctx.explanation = "C02.sym (sibling agreement): in every pattern match over ASN1Type in the crate, SEQUENCE and SET (and SEQUENCE OF / SET OF) are handled alike — a pattern that names one variant of a pair while its sibling falls through to a wildcard/else is a deviant (the IR shares one payload type per pair, so the only legitimate difference is the set marker). \
 C02.order: every iterator chain rooted at a component list (`.members`, `.options`) in the lexer conversions, linker and both generators uses only order- and cardinality-preserving adaptors; rebuilding pushes are at the end position. \
@@ -87,6 +225,8 @@ Not decided: that the parsed list equals the source list, hoisted inner names fo
     wrap(m, ctx);
     member_type(m, ctx);
     defname(m, ctx, "C02.defname");
+    recursion_marking(m, ctx, "C02.box");
+    crate::rules::c05::member_annotations(m, ctx, "C02.member", "default");
     rebuild(m, ctx, "C02.rebuild");
     // anonymous nested types are emitted wherever they are referred to (shared with C01.defined)
     crate::rules::c01::defined(m, ctx, "C02.nested");
